@@ -756,6 +756,14 @@ example : priceOf (cashNeg (es 1)) [(1 : ℝ), 0] [2, 3] = 3 := by
   rw [price_cashNeg_eq_loss]
   norm_num [C04ES.es_eq, hs]
 
+/-- the stabilised evaluation of `EntropicLoss.cash` used by the code after the F7 repair
+(`-entropic_risk_measure`) equals the documented closed form `-log(mean exp(-a x))/a` -/
+theorem entropicLossCashStable_eq (a : ℝ) (xs : List ℝ) (hxs : xs ≠ []) :
+    entropicLossCashStable a xs = .ok (entropicLossCash a xs) := by
+  unfold entropicLossCashStable
+  rw [C04ERM.erm_eq_def a xs hxs, C06Aux.entropicLossCash_eq]
+  rfl
+
 /-- hypotheses of `cash_mem_range` / `cash_le_mean` are satisfiable -/
 example : (1 : ℕ) ≤ 2 ∧ 2 ≤ ([(3 : ℝ), 1, 1, 2]).length ∧ [(3 : ℝ), 1, 1, 2] ≠ [] := by
   simp
